@@ -371,6 +371,11 @@ class InterpCore(object):
         return self.binop(node.op, a, b, node)
 
     def binop(self, op, a, b, node=None):
+        # operators of library-model objects (e.g. parser elements)
+        if type(a).__name__ == "PyObjV" and hasattr(a.obj, "binop"):
+            return a.obj.binop(self, op, b)
+        if type(b).__name__ == "PyObjV" and hasattr(b.obj, "binop"):
+            return b.obj.binop(self, op, a, reflected=True)
         # string / sequence operators first
         if isinstance(op, ast.Mod) and is_strlike(a):
             return self.printf(a, b, node)
@@ -491,6 +496,17 @@ class InterpCore(object):
 
     def compare(self, op, a, b, node=None):
         opn = type(op).__name__
+        if opn in ("Is", "IsNot") and (isinstance(a, Phi) != isinstance(b, Phi)) \
+                and (_is_sentinel(a) or _is_sentinel(b)):
+            # identity of a conditional value with a sentinel object: decided in each branch
+            ph, other = (a, b) if isinstance(a, Phi) else (b, a)
+            ra = self.compare(op, ph.a, other, node)
+            rb = self.compare(op, ph.b, other, node)
+            if isinstance(ra, bool) and isinstance(rb, bool):
+                if ra == rb:
+                    return ra
+                return ph.cond if ra else neg_cond(ph.cond)
+            self.err(node, "identity comparison of %r and %r" % (a, b))
         if opn in ("Is", "IsNot"):
             r = None
             if isinstance(a, Const) and isinstance(b, Const):
@@ -506,6 +522,9 @@ class InterpCore(object):
                     r = False
             elif a is b:
                 r = True
+            elif (_is_sentinel(a) or _is_sentinel(b)) and not isinstance(a, (Phi, Unknown)) and not isinstance(b, (Phi, Unknown)):
+                # a fresh object() is identical to itself only
+                r = _is_sentinel(a) and _is_sentinel(b) and a.obj is b.obj
             elif isinstance(a, ExtV) or isinstance(b, ExtV):
                 r = isinstance(a, ExtV) and isinstance(b, ExtV) and a.name == b.name
             if r is None:
@@ -824,6 +843,16 @@ class InterpCore(object):
 def _is_plain_decimal(s):
     import re
     return re.match(r"^[0-9_]*\.?[0-9_]*([eE][-+]?[0-9]+)?$", s.strip()) is not None and any(ch.isdigit() for ch in s)
+
+
+class Sentinel(object):
+    """object(): a value with an identity and nothing else"""
+    def __repr__(self):
+        return "<object()>"
+
+
+def _is_sentinel(v):
+    return type(v).__name__ == "PyObjV" and isinstance(v.obj, Sentinel)
 
 
 def is_strlike(v):
